@@ -33,3 +33,33 @@ pub(crate) fn ic_event(f: impl FnOnce() -> String) {
         IC_EVENTS.with(|e| e.borrow_mut().push(line));
     }
 }
+
+/// (number of call frames including the dummy frame, length of the value stack)
+pub fn vm_depths(context: &crate::Context) -> (usize, usize) {
+    (context.vm.frames.len(), context.vm.stack.len())
+}
+
+/// One line describing the VM's frame chain: `len=<stack length> host=<host call depth>` followed by one
+/// `fp:rp:argc:registers:exit_early:envs:env_fp` entry per call frame (the dummy frame at index 0 is skipped).
+pub fn vm_snapshot(context: &crate::Context) -> String {
+    use std::fmt::Write;
+    let mut out = format!(
+        "len={} host={}",
+        context.vm.stack.len(),
+        context.vm.host_call_depth
+    );
+    for frame in context.vm.frames.iter().skip(1) {
+        let _ = write!(
+            out,
+            " {}:{}:{}:{}:{}:{}:{}",
+            frame.fp,
+            frame.rp,
+            frame.argument_count,
+            frame.code_block().register_count,
+            u8::from(frame.exit_early()),
+            frame.environments.len(),
+            frame.env_fp
+        );
+    }
+    out
+}
